@@ -20,6 +20,7 @@ ASSUMPTIONS = [
     "Python base64 and codecs are ground truth",
 ]
 SYMS = ["a", "B", "é", "€", "\U0001F600", "\\*"]
+WILD = ["?", "*"]  # unescaped wildcards: a payload containing one denotes no byte string
 CODECS = {"wide": ("utf-16-le", b""), "utf16le": ("utf-16-le", b""), "utf16be": ("utf-16-be", b""), "utf16": ("utf-16-le", b"\xff\xfe")}
 CHAINS = ["base64", "base64offset", "wide", "utf16be", "utf16"] + [f"{c}|{b}" for c in ("wide", "utf16be", "utf16") for b in ("base64", "base64offset")]
 BOUNDS = {"quick": dict(maxlen=4), "thorough": dict(maxlen=6)}
@@ -35,6 +36,10 @@ def payloads(maxlen):
     for n in range(maxlen + 1):
         for t in itertools.product(SYMS, repeat=n):
             yield "".join(t)
+    for n in range(1, min(maxlen, 3) + 1):  # payloads with at least one unescaped wildcard
+        for t in itertools.product(["a", "é", "\\*"] + WILD, repeat=n):
+            if any(x in WILD for x in t):
+                yield "".join(t)
 
 
 def literal_of(payload):
@@ -94,6 +99,20 @@ def check(res, chain, payload):
     res["evaluations"] += 1
     multibyte = any(ord(c) > 127 for c in lit)
     escaped = "\\" in payload
+    if any(not isinstance(p, str) for p in R.parse_sigma_string(payload)):
+        # a wildcard has no bytes: Base64 of such a payload must be rejected (the UTF-16 stage alone is not judged)
+        if b64 is None:
+            return
+        try:
+            item = apply_chain(chain, payload)
+        except SigmaError:
+            res["outcomes"].add(h64("reject-wildcard"))
+            return
+        except Exception as e:
+            add_violation(res, f"{chain}:non-sigma-exception:{type(e).__name__}", case, "SigmaError", repr(e))
+            return
+        add_violation(res, f"{chain}:payload-with-wildcard-accepted", case, "SigmaError", repr(item.value)[:200])
+        return
     mech = ("multibyte" if multibyte else "") + ("+escaped" if escaped else "") or "ascii"
     try:
         item = apply_chain(chain, payload)
@@ -109,6 +128,17 @@ def check(res, chain, payload):
     vals = item.value
     if len(vals) != 1:
         add_violation(res, f"{chain}:value-count", case, 1, len(vals))
+        return
+    # the payload objects handed to the first item are used for a second item: same chain, same result
+    try:
+        from sigma.rule import SigmaDetectionItem
+
+        again = SigmaDetectionItem("f", list(item.modifiers), list(item.original_value))
+        if repr(again.value) != repr(vals) or repr(again.original_value) != repr(apply_chain(chain, payload).original_value):
+            add_violation(res, f"{chain}:second-item-from-the-same-payload-object-differs", case, repr(vals)[:200], repr(again.value)[:200])
+            return
+    except Exception as e:
+        add_violation(res, f"{chain}:second-item-from-the-same-payload-object-fails:{type(e).__name__}", case, repr(vals)[:200], repr(e)[:200])
         return
     fails = judge(vals[0], b64, want)
     res["outcomes"].add(h64([b64, [f[0] for f in fails]]))
